@@ -253,6 +253,28 @@ def check_property(prop, tier, seed, relock=False):
                 violations.append((o['key'], path, {'confirmed': False}))
             elif o['status'] != 'discharged':
                 undecided.append(o['key'])
+    # repaired defects keep their witness as a regression check: if it reproduces again, that is a violation (a fixed entry suppresses nothing)
+    for f in fixed_f:
+        if f.get('property') == prop and f.get('witness'):
+            wpath = os.path.join(HERE, 'findings', f['witness'])
+            env = dict(os.environ)
+            env['PYTHONPATH'] = os.path.dirname(src.root) + os.pathsep + env.get('PYTHONPATH', '')
+            try:
+                pr_ = subprocess.run([VENV_PY, wpath], capture_output=True, text=True, timeout=600, env=env)
+                total += 1
+                k_ = 'regression[' + f['witness'] + ']'
+                agg[k_] = {'key': k_, 'function': 'witness', 'instances': 1, 'status': 'discharged' if pr_.returncode == 0 else 'refuted', 'aux': False,
+                           'seconds': 0.0, 'worst': None, 'solvers': {'native replay': 1}}
+                if pr_.returncode == 1:
+                    path = os.path.join(HERE, 'replays', f"{prop}_regression_{f['witness']}.json")
+                    os.makedirs(os.path.dirname(path), exist_ok=True)
+                    json.dump({'property': prop, 'obligation': k_, 'witness_script': wpath, 'output': pr_.stdout[-1000:],
+                               'how_to_run': f'PYTHONPATH={os.path.dirname(src.root)} {VENV_PY} {wpath}'}, open(path, 'w'), indent=1)
+                    violations.append((k_, path, {'confirmed': True}))
+                elif pr_.returncode != 0:
+                    checker_errors.append(f"regression witness {f['witness']} crashed: {pr_.stderr[-300:]}")
+            except Exception as e:
+                checker_errors.append(f"regression witness {f['witness']}: {e!r}")
     # genuine defects recorded as open findings with a native witness script (findings/<name>.py exits 1 while the defect reproduces)
     for f in open_f:
         if f.get('property') == prop and f.get('witness'):
